@@ -23,6 +23,8 @@ pub struct Printer<'a, 'b> {
     /// allow redundant parentheses
     pub parens: bool,
     in_expr: bool,
+    /// one escape form for every character of the literal being printed (where that form can express the character)
+    uniform_escape: Option<u8>,
 }
 
 pub fn print_canonical(g: &Grammar) -> String {
@@ -42,7 +44,7 @@ const COMMENT_BODIES: &[&str] = &["", " c", " 'x' | ; = {", " @export A = 'a';",
 
 impl<'a, 'b> Printer<'a, 'b> {
     pub fn new(src: &'b mut Src<'a>, vary: bool, parens: bool) -> Self {
-        Printer { src, out: String::new(), stats: Default::default(), vary, parens, in_expr: false }
+        Printer { src, out: String::new(), stats: Default::default(), vary, parens, in_expr: false, uniform_escape: None }
     }
 
     /// optional whitespace between two tokens; `need` = at least one separator is required
@@ -357,9 +359,14 @@ impl<'a, 'b> Printer<'a, 'b> {
             self.stats.dquotes += 1;
         }
         self.out.push(q);
+        // sometimes the whole literal in one escape form (adjacent \xXX \xXX, \uXXXX \uXXXX ... sequences)
+        if self.vary && !self.src.exhausted() && self.src.chance(26) {
+            self.uniform_escape = Some(*self.src.choose(&[2u8, 2, 3, 5, 4]));
+        }
         for c in s.chars() {
             self.item(c, q);
         }
+        self.uniform_escape = None;
         self.out.push(q);
     }
 
@@ -404,7 +411,9 @@ impl<'a, 'b> Printer<'a, 'b> {
         if raw_ok && !raw_canonical {
             opts.push(0);
         }
-        let k = if self.vary && !self.src.exhausted() {
+        let k = if let Some(u) = self.uniform_escape.filter(|u| opts.contains(u)) {
+            u
+        } else if self.vary && !self.src.exhausted() {
             if self.src.chance(150) {
                 opts[0]
             } else {
